@@ -85,6 +85,14 @@ def run_case(ctx, fam, M, k, sel, dtype, tag="rand"):
         except ValueError:
             pass
         boh3 = ctx.must("decoder_raises", _LONG_LIVED[key], logits.copy())
+        # the caller's matrix buffer re-used for the next line (same array object, new content)
+        buf = logits.copy()
+        _LONG_LIVED[key](buf)
+        buf[...] = logits[::-1]
+        boh_buf = ctx.must("decoder_raises", _LONG_LIVED[key], buf)
+        boh_rev = ctx.must("decoder_raises", dec, np.ascontiguousarray(logits[::-1]).copy())
+    ctx.check(sorted((h.transcript, float(h.vis_sc)) for h in boh_buf) == sorted((h.transcript, float(h.vis_sc)) for h in boh_rev),
+              "result_for_a_reused_buffer_is_that_of_its_earlier_content", desc)
     hyps2_later = [(h.transcript, float(h.vis_sc)) for h in boh2]
     ctx.check(hyps2_later == hyps2, "earlier_bag_changed_by_a_later_call", lambda: "was %r, is %r; " % (hyps2, hyps2_later) + desc())
     hyps3 = [(h.transcript, float(h.vis_sc)) for h in boh3]
